@@ -52,6 +52,11 @@ def run(tier, seed, replay):
     uni = ["é", "✓", "\U0001f600", "\n", "\t", "\\", "\"", "'", "\x01", "\x7f", " ", "%%", "%a%", "%env(\"H\")%", "%todo()%", "%envInt(\"N\", 5)%", "%a.b-c_d%", "x", "1"]
     for _ in range(300 if tier == "quick" else 20000):
         cands.append("".join(r.choice(uni) for _ in range(r.randint(1, 7))))
+    # function tokens whose argument text itself contains parentheses, quotes, commas, percent-free operators
+    for fn in ("env", "envInt", "todo"):
+        for args in ["", "()", "(1)", "f()", "\"a\", f(1, 2)", "int(8080)", "(8000)+(81)", "\")\"", "\"(\"", "a, b", " 1 ", "((x))", "x)(y", ")(", "\"é\"", "1,2,3", "f(g(h()))"]:
+            cands.append("%%%s(%s)%%" % (fn, args))
+            cands.append("pre %%%s(%s)%% post" % (fn, args))
     cands = sorted(set(cands), key=lambda x: (len(x), x))
     specs, plan = [], []
     for a in range(0, len(cands), 250):
